@@ -81,7 +81,7 @@ def fn_names():
     return formulas.supported()
 
 
-LEXEMES = ['A1', '$A$1', '$B2', 'C$3', 'zz99', 'A1:B2', ':', ',', ';', '\\', '(', ')', '{', '}', '+', '-', '*', '/', '^', '%', '&', '=', '<>', '<', '>', '<=', '>=', '!', "'", '"', '#',
+LEXEMES = ['A1', '$A$1', '$B2', 'C$3', 'zz99', 'A1:B2', 'ZZZZZZZZ1:A1', 'B2:ABCDEFGHIJK7', 'QWERTYUIOP12345678901234567890', ':', ',', ';', '\\', '(', ')', '{', '}', '+', '-', '*', '/', '^', '%', '&', '=', '<>', '<', '>', '<=', '>=', '!', "'", '"', '#',
            '#N/A', '#DIV/0!', '#REF!', '#NAME?', '#GETTING_DATA', '#FOO!', '1', '0', '12', '007', '.', '.5', '1.5', ' ', '\t', '\n', 'TRUE', 'FALSE', 'NULL', 'v_a', 'v_s', 'v_l', 'nosuch', 'x_1', '_',
            '"txt"', "'t'", '""', '"a,b"', 'HF(', 'NOSUCH(', 'SUM(', 'IF(', 'ERROR.TYPE(', 'INDEX(', '~', '@', 'é', '\x00', '`', '[', ']', '|', '$', '1e5', '٣', '∞']
 
@@ -313,8 +313,8 @@ def check_tamper(case):
 
 # ---------------------------------------------------------------- termination on boundary arguments
 
-TB = [-2 ** 40, -37, -2, -1, -0.5, 0, 0.5, 0.999, 1, 1.01, 1.5, 1.9, 2, 2.5, 36, 36.5, 37, 3999, 4000, 2 ** 39, 10 ** 15, float('inf'), float('-inf'), float('nan'), '', 'a', 'aaa', '12', '1.5', None, True, False, '~', 'a~a*']
-TB_SMALL = [-1, 0, 0.5, 1, 1.5, 2, float('inf'), float('nan'), '', 'a', 'aaa', None, '~', 'a~a*']       # the values that decide loop bounds: all combinations of these at arity 3 and 4
+TB = [-2 ** 40, -37, -2, -1, -0.5, 0, 0.5, 0.999, 1, 1.01, 1.5, 1.9, 2, 2.5, 36, 36.5, 37, 3999, 4000, 2 ** 39, 10 ** 15, float('inf'), float('-inf'), float('nan'), '', 'a', 'aaa', '12', '1.5', None, True, False, '~', 'a~a*', [], ['a', 'aaa']]
+TB_SMALL = [-1, 0, 0.5, 1, 1.5, 2, float('inf'), float('nan'), '', 'a', 'aaa', None, '~', 'a~a*', [], ['a', 'aaa']]       # the values that decide loop bounds: all combinations of these at arity 3 and 4
 TFUNCS = [('BASE', 2), ('BASE', 3), ('ROMAN', 1), ('ROMAN', 2), ('ARABIC', 1), ('SUBSTITUTE', 3), ('SUBSTITUTE', 4), ('TEXT', 2), ('DEC2HEX', 1), ('DEC2HEX', 2), ('HEX2DEC', 1), ('DECIMAL', 2), ('CHAR', 1),
           ('ROUND', 2), ('ROUNDUP', 2), ('ROUNDDOWN', 2), ('CEILING', 2), ('FLOOR', 2), ('MOD', 2), ('QUOTIENT', 2), ('EDATE', 2), ('DATE', 3), ('TIME', 3), ('LEFT', 2), ('MID', 3), ('INDEX', 3), ('MATCH', 3), ('LARGE', 2),
           ('CHOOSE', 2), ('RANDBETWEEN', 2), ('PV', 3), ('WEEKDAY', 2), ('DATEDIF', 3), ('TEXTJOIN', 3), ('LOG', 2), ('POWER', 2), ('COMPLEX', 2), ('COUNTIF', 2), ('SUMIF', 2), ('SUMIF', 3), ('AVERAGEIF', 2), ('REPLACE', 4), ('FIND', 3), ('SEARCH', 3), ('REPT', 2)]
@@ -330,7 +330,7 @@ def enum_term(tier, shard, nshards):
             # arity 3/4: every pair of boundary values in the first two slots, later slots cycling through the pool
             tuples = (t + tuple((t[0] * 5 + t[1] * 3 + k * 7) % len(TB) for k in range(ar - 2)) for t in itertools.product(rng, repeat=2))
             # ... and every combination of the loop-deciding values in all slots (of the whole pool in the thorough tier, at arity 3)
-            small = [TB.index(v) if v == v else 23 for v in TB_SMALL]
+            small = [TB.index(v) if v == v else 23 for v in TB_SMALL]          # (23 = nan, which equals nothing)
             tuples = itertools.chain(tuples, itertools.product(small, repeat=ar), itertools.product(rng, repeat=ar) if tier == 'thorough' and ar == 3 else ())
         for tup in tuples:
             i += 1
